@@ -12,6 +12,28 @@ Theorem C05_span_subspan_guard_exact : forall n off c,
 Proof. exact span_subspan_exact. Qed.
 Print Assumptions C05_span_subspan_guard_exact.
 
+(* first<Count>() / last<Count>() / subspan<Offset, Count>() on a span of dynamic extent (fix b24e9dc): the run-time checks
+   equal the [span.sub] preconditions Count <= size() resp. Offset <= size() && (Count == dynamic_extent ||
+   Offset + Count <= size()) for ALL template arguments and sizes, and Offset <= size() is the check that fires first *)
+Theorem C05_span_compile_time_forms_guard_exact : forall n off c,
+  0 <= n < two64 -> is_size_t off -> is_size_t c ->
+  span_tfirst n c = pre_count n c /\ span_tlast n c = pre_count n c /\
+  span_tsubspan n off c = pre_span_subspan n off c /\
+  (span_tsubspan_site n off c = 0%nat <-> span_tsubspan n off c = true) /\
+  (span_tsubspan_site n off c = 1%nat <-> off > n).
+Proof.
+  intros n off c Hn Ho Hc.
+  split; [exact (span_tfirst_exact n c Hc)|]. split; [exact (span_tlast_exact n c Hc)|].
+  split; [exact (span_tsubspan_exact n off c Hn Ho Hc)|]. exact (span_tsubspan_site_spec n off c Ho).
+Qed.
+Print Assumptions C05_span_compile_time_forms_guard_exact.
+
+(* span<T, Extent>(first, count) / (range) / (span<U, dynamic_extent>): [span.cons] extent == dynamic_extent || count == extent *)
+Theorem C05_span_ctor_guard_exact : forall ext count, is_size_t ext -> is_size_t count ->
+  span_ctor_count ext count = pre_span_ctor ext count.
+Proof. exact span_ctor_count_exact. Qed.
+Print Assumptions C05_span_ctor_guard_exact.
+
 Theorem C05_span_index_guard_exact : forall n i, is_size_t i -> span_index n i = pre_index n i.
 Proof. exact span_index_exact. Qed.
 Print Assumptions C05_span_index_guard_exact.
@@ -67,5 +89,8 @@ Print Assumptions C05_day_month_ctor_guard_exact.
 
 Example C05_nonvacuous :
   span_subspan 3 2 dyn_extent = true /\ span_subspan 3 2 2 = false /\ span_subspan 3 4 dyn_extent = false
-  /\ pre_span_subspan 3 2 1 = true /\ bit_guard 8 8 = false /\ bitset_guard 65 64 = true.
+  /\ pre_span_subspan 3 2 1 = true /\ bit_guard 8 8 = false /\ bitset_guard 65 64 = true
+  /\ span_tfirst 3 3 = true /\ span_tlast 3 4 = false /\ span_tsubspan 3 1 2 = true /\ span_tsubspan 3 1 3 = false
+  /\ span_tsubspan_site 3 4 dyn_extent = 1%nat /\ span_tsubspan_site 3 2 2 = 2%nat
+  /\ span_ctor_count 3 3 = true /\ span_ctor_count 3 2 = false /\ span_ctor_count dyn_extent 2 = true /\ span_ctor_count 0 1 = false.
 Proof. vm_compute. repeat split; reflexivity. Qed.
